@@ -12,6 +12,7 @@ import (
 	"log"
 	"reflect"
 	"strings"
+	"sync"
 	"time"
 
 	am "github.com/hashicorp/go-argmapper"
@@ -73,6 +74,9 @@ type scenario struct {
 }
 
 // ---------------------------------------------------------------- building functions
+
+// errValsMu guards scenario.errVals (function bodies run on several goroutines in the race family)
+var errValsMu sync.Mutex
 
 func tagFor(l lab) string {
 	parts := []string{l.Name}
@@ -203,10 +207,12 @@ func (f *fnSpec) runInner(got []reflect.Value) (outs []reflect.Value, nilPtr boo
 				// the usual validation idiom: a multierror with a single entry — still the converter's own error value
 				failure = multierror.Append(nil, failure)
 			}
+			errValsMu.Lock()
 			if f.sc.errVals == nil {
 				f.sc.errVals = map[int]error{}
 			}
 			f.sc.errVals[eid] = failure
+			errValsMu.Unlock()
 			return outs, false, failure
 		}
 	}
@@ -1005,7 +1011,10 @@ func (sc *scenario) classifyErr(err error) string {
 		if e0 == nil {
 			return "e0 typednil"
 		}
-		if want, known := sc.errVals[e0.ID]; known {
+		errValsMu.Lock()
+		want, known := sc.errVals[e0.ID]
+		errValsMu.Unlock()
+		if known {
 			// the very value the function body returned must come back (not wrapped, not unwrapped)
 			if err != want {
 				return fmt.Sprintf("other:not-the-returned-error-value-e0-%d", e0.ID)
